@@ -1,4 +1,6 @@
 import GomlVerif.Model.Num
+import GomlVerif.Model.GoConst
+import GomlVerif.Gen.FloatPrint
 import GomlVerif.Gen.OpMap
 import GomlVerif.Gen.ToString
 import GomlVerif.Gen.NumTypes
@@ -13,7 +15,9 @@ C10 — numbers mean what they say.  Theorems over `Model/Num.lean` and the gene
   width and signedness, all operand values), spec-pinning lemmas `wrap_mod`, `wrap_signed_range`, `div_trunc`,
   `div_min_neg_one`, `div_zero_panics`, `cmp_signed`, `cmp_unsigned`
 * printing: `to_string_int`
-* Go constant folding: `const_operands_faithful_iff` (the known finding, as a theorem)
+* Go constant folding: `const_operands_faithful_of_fits`, `const_operands_unfaithful` (integers);
+  `float_const_faithful_if_exact_operands`, `float_const_two_ops_unfaithful`, `float_const_f32_display_unfaithful`,
+  `float_const_f64_display_unfaithful`, `float_const_rejected`, `const_kinds`, `float_print_identifies_f64` (floats)
 -/
 namespace Goml.Props.C10
 open Goml.Num
@@ -687,6 +691,111 @@ theorem const_operands_unfaithful :
     (semBinInt .add ⟨true, 8⟩ 127 1 = .int (-128) ∧ goConstBin "+" ⟨true, 8⟩ 127 1 = none) ∧
     (semBinInt .div ⟨true, 32⟩ 1 0 = .panic ∧ goConstBin "/" ⟨true, 32⟩ 1 0 = none) ∧
     (semBinInt .add ⟨false, 8⟩ 255 1 = .int 0 ∧ goConstBin "+" ⟨false, 8⟩ 255 1 = none) := by
+  decide
+
+/-! ### Go constant expressions over FLOAT literals
+
+An operator whose operands are all float literals is printed as `lit op lit`; Go evaluates it on the **printed texts**,
+exactly, and rounds **once** at the typed use (`Model/GoConst.lean`).  The source meaning is the IEEE operation on
+the two floats the literals were rounded to.  IEEE-754 defines `+ − × ÷` as *the exact result, correctly rounded*
+(so `ieeeOp a b = round (op (val a) (val b))` is the definition, not an assumption about hardware).  Hence: -/
+
+/-- **float_const_faithful_if_exact_operands** — for ONE operator (`+ − × ÷`, any format, any correctly-rounding
+    `round`): if each printed operand text denotes exactly the float it stands for, Go's exact-then-round-once value
+    IS the IEEE result.  No double-rounding problem arises, because only one rounding happens on either side. -/
+theorem float_const_faithful_if_exact_operands {R F : Type} (op : R → R → R) (round : R → F) (val : F → R)
+    (denote : String → R) (ta tb : String) (a b : F) (ha : denote ta = val a) (hb : denote tb = val b) :
+    round (op (denote ta) (denote tb)) = round (op (val a) (val b)) := by
+  rw [ha, hb]
+
+/-- the same for unary minus applied to a literal (`-0.5`), `round (-x) = -(round x)` not even being needed -/
+theorem float_const_neg_faithful_if_exact_operand {R F : Type} (neg : R → R) (round : R → F) (val : F → R)
+    (denote : String → R) (t : String) (a : F) (ha : denote t = val a) :
+    round (neg (denote t)) = round (neg (val a)) := by
+  rw [ha]
+
+set_option maxRecDepth 8000 in
+open Goml.GoConst in
+/-- non-vacuity of the hypothesis and of the conclusion, on the concrete binary32 model: with the EXACT decimal
+    expansion of `0.1f32` the constant expression agrees with the IEEE sum even on an exact rounding tie -/
+theorem float_const_exact_texts_example :
+    (goFloatConst "float32" (.bin "+" (.lit "0.100000001490116119384765625") (.lit "0.03125"))).toOption = some 0x3e066666 ∧
+    ((litBits "float32" "0.1").bind fun a => (litBits "float32" "0.03125").bind fun b => ieeeBin 24 8 "+" a b) = some 0x3e066666 ∧
+    (litBits "float32" "0.1").bind (valOfBits 24 8) = some ⟨13421773, 2 ^ 27⟩ := by
+  decide +kernel
+
+open Goml.GoConst in
+/-- **float_const_two_ops_unfaithful** — the statement does NOT extend to two operators in one constant expression,
+    even with exact texts: `16777216 + 1 + 1` is `16777218` exactly, but two float32 additions give `16777216`
+    (each `+ 1` is a tie that rounds to even).  The backend is safe only because ANF names every intermediate result,
+    so a printed constant expression has exactly one operator — which the harness checks on every emitted program. -/
+theorem float_const_two_ops_unfaithful :
+    (goFloatConst "float32" (.bin "+" (.bin "+" (.lit "16777216.0") (.lit "1.0")) (.lit "1.0"))).toOption = some 0x4b800001 ∧
+    ((litBits "float32" "16777216.0").bind fun a => (litBits "float32" "1.0").bind fun b =>
+      (ieeeBin 24 8 "+" a b).bind fun t => ieeeBin 24 8 "+" t b) = some 0x4b800000 := by
+  decide
+
+open Goml.GoConst in
+/-- **float_const_f32_display_unfaithful** — shortened texts (the shortest decimal that reads back as the *float32*,
+    what a printer using `(value as f32).to_string()` emits): `0.1f32 + 0.6f32` means `0.70000005` (0x3f333334) but
+    `0.1 + 0.6` is the real number 0.7, which rounds to 0x3f333333; likewise `0.1f32 * 0.1f32`, `0.1f32 / 0.3f32` -/
+theorem float_const_f32_display_unfaithful :
+    (goFloatConst "float32" (.bin "+" (.lit "0.1") (.lit "0.6"))).toOption = some 0x3f333333 ∧
+    ((litBits "float32" "0.1").bind fun a => (litBits "float32" "0.6").bind fun b => ieeeBin 24 8 "+" a b) = some 0x3f333334 ∧
+    (goFloatConst "float32" (.bin "+" (.lit "0.10000000149011612") (.lit "0.6000000238418579"))).toOption = some 0x3f333334 ∧
+    (goFloatConst "float32" (.bin "*" (.lit "0.1") (.lit "0.1"))).toOption ≠
+      ((litBits "float32" "0.1").bind fun a => ieeeBin 24 8 "*" a a) ∧
+    (goFloatConst "float32" (.bin "/" (.lit "0.1") (.lit "0.3"))).toOption ≠
+      ((litBits "float32" "0.1").bind fun a => (litBits "float32" "0.3").bind fun b => ieeeBin 24 8 "/" a b) := by
+  decide
+
+open Goml.GoConst in
+/-- **float_const_f64_display_unfaithful** — the texts the printer emits today (`{}` of the f64: the shortest decimal
+    that reads back as that *f64*) are not exact either, so the hypothesis of `float_const_faithful_if_exact_operands`
+    fails for them too.  float64: `0.1f64 + 0.2f64` means 0.30000000000000004 but `0.1 + 0.2` is exactly 0.3.
+    float32: the text is within 2^-53 of the value, which only matters on an exact tie — `0.1f32 + 0.03125f32`:
+    the IEEE sum is a tie and rounds to even (0x3e066666); `0.10000000149011612` lies a hair above `0.1f32`, so Go's
+    exact sum lies above the tie and rounds up (0x3e066667).  Both are found on the real output (known findings). -/
+theorem float_const_f64_display_unfaithful :
+    (goFloatConst "float64" (.bin "+" (.lit "0.1") (.lit "0.2"))).toOption = some 0x3fd3333333333333 ∧
+    ((litBits "float64" "0.1").bind fun a => (litBits "float64" "0.2").bind fun b => ieeeBin 53 11 "+" a b)
+      = some 0x3fd3333333333334 ∧
+    (goFloatConst "float32" (.bin "+" (.lit "0.10000000149011612") (.lit "0.03125"))).toOption = some 0x3e066667 ∧
+    ((litBits "float32" "0.1").bind fun a => (litBits "float32" "0.03125").bind fun b => ieeeBin 24 8 "+" a b)
+      = some 0x3e066666 := by
+  decide
+
+set_option maxRecDepth 8000 in
+open Goml.GoConst in
+/-- **float_const_rejected** — constant division by zero and constant overflow are compile-time errors in Go, while the
+    source program is accepted and means ±Inf; and Go has no negative-zero constant: `-0.0` is `+0` -/
+theorem float_const_rejected :
+    (match goFloatConst "float64" (.bin "/" (.lit "1.0") (.lit "0.0")) with
+      | .error .divisionByZero => true | _ => false) = true ∧
+    (match goFloatConst "float32" (.bin "*" (.lit "340282346638528859811704183484516925440.0") (.lit "10.0")) with
+      | .error .overflows => true | _ => false) = true ∧
+    (goFloatConst "float32" (.neg (.lit "0.0"))).toOption = some 0 ∧
+    ((litBits "float32" "0.0").map (ieeeNeg 24 8)) = some 0x80000000 := by
+  refine ⟨by decide, by decide, by decide, by decide⟩
+
+open Goml.GoConst in
+/-- mixed integer/float constants and constant comparison (Go: integer constants divide with truncation, a `.` makes
+    the constant floating-point — the printer's `.0` suffix keeps `1.0 / 2.0` from becoming `1 / 2 = 0`) -/
+theorem const_kinds :
+    (constEval (.bin "/" (.lit "1") (.lit "2"))).toOption.bind CVal.toQ = some ⟨0, 1⟩ ∧
+    ((constEval (.bin "/" (.lit "1.0") (.lit "2.0"))).toOption.bind CVal.toQ).map (Q.eqv ⟨1, 2⟩) = some true ∧
+    ((constEval (.bin "/" (.lit "1") (.lit "2.0"))).toOption.bind CVal.toQ).map (Q.eqv ⟨1, 2⟩) = some true ∧
+    (match constEval (.bin "==" (.bin "+" (.lit "0.1") (.lit "0.2")) (.lit "0.3")) with | .ok (.bool b) => b | _ => false) = true := by
+  decide
+
+/-- **float_print_identifies_f64** (over the generated `Gen/FloatPrint`) — both float types are spelled with `{}` of the
+    f64 value, the strongest guarantee the printer can give short of exact expansions: the text identifies the value
+    among all f64 (so a single literal, and a literal next to a variable, always denote the right float), and integral
+    spellings get `.0`.  A printer that spells float32 literals with the float32's own shortest digits fails here. -/
+theorem float_print_identifies_f64 :
+    Gen.FloatPrint.literalText.map (·.1) = ["TFloat32", "TFloat64"] ∧
+    (Gen.FloatPrint.literalText.all fun r => Goml.GoConst.printIdentifiesF64 r.2) = true ∧
+    Gen.FloatPrint.integralSuffix = ".0" := by
   decide
 
 /-! ### the generated tables -/
